@@ -59,6 +59,15 @@ impl<K: Clone + PartialEq + Eq + Hash + std::fmt::Debug + std::cmp::PartialOrd, 
         w.remove(key);
     }
 
+    /// Put evicted entries back (their write-back failed, so the cache
+    /// still holds the only copy of the modifications)
+    pub(crate) fn put_back(&self, entries: Vec<(K, AsyncLruCacheEntry<V>)>) {
+        let mut r = self.rmap.write().unwrap();
+        for (key, entry) in entries {
+            r.entry(key).or_insert(entry);
+        }
+    }
+
     /// Flush key/value pairs from wmap to rmap
     pub(crate) fn commit_wmap(&self) -> Option<Vec<(K, AsyncLruCacheEntry<V>)>> {
         let mut w = self.wmap.lock().unwrap();
